@@ -38,7 +38,7 @@ func (c14) Info(tier string) fw.Info {
 	n, m := tierNM(tier)
 	return fw.Info{
 		Level: "exploration",
-		Rule: fmt.Sprintf("programs built to be sensitive to map order (>= 3 modules with shared helper/global naming schemes, objects with 4..12 fields printed whole / as JSON / key lists / through any-objects, many locals and shadowing, scopes with up to 25 unused items, impl blocks with several capabilities and methods, rejected programs whose messages print object types, programs ending in fatal errors with stack traces, singletons, match), the generated programs of hv/prog and the shipped examples/tests; "+
+		Rule: fmt.Sprintf("programs built to be sensitive to map order (>= 3 modules with shared helper/global naming schemes, objects with 4..12 fields printed whole / as JSON / key lists / through any-objects, many locals and shadowing, scopes with up to 25 unused items, impl blocks with several capabilities and methods, rejected programs whose messages print object types, programs ending in fatal errors with stack traces, singletons, match, objects with 4..12 fields of which 2..4 cannot be encoded as JSON — ranges, functions, non-finite floats, directly / in lists / options / nested objects — passed to to_json / to_json_indent as typed objects, any-objects, in lists and inside other objects, JSON decoding under an object type with several offending members), the generated programs of hv/prog and the shipped examples/tests; "+
 			"each program is analysed twice, compiled, run on the VM and on the interpreter N=%d times in one process (fewer for programs that execute more than 200k steps), with an unrelated program reusing the same module names run in between, and once more in each of M=%d fresh processes; "+
 			"compared component-wise: syntax errors, sorted diagnostic multiset (level, message, span), the same with notes, VM outcome with the full message and stack trace, VM output, VM host-call log, the same three for the interpreter, canonical dump of the compiler output. "+
 			"non-trivial = at least 3 repetitions completed and the program produced >= 2 diagnostics or ran with >= 3 lines of output; distinct = distinct sources", n, m),
@@ -112,6 +112,27 @@ func altFor(src map[string]string, r *fw.Rng) map[string]string {
 	return alt
 }
 
+// State of a finding in known_findings.txt.
+const (
+	kfUnlisted = iota
+	kfOpen
+	kfFixed
+)
+
+// kfState tells whether a finding of C14 is listed as open (by name), as fixed (a fixed line whose
+// witness carries the construct tag) or not at all.
+func kfState(name, tag string) int {
+	if fw.KFOpen(name) {
+		return kfOpen
+	}
+	for _, f := range fw.Findings() {
+		if f.Status == "fixed" && f.Property == "C14" && f.Witness != nil && f.Witness.HasTag(tag) {
+			return kfFixed
+		}
+	}
+	return kfUnlisted
+}
+
 func (c14) Cases(tier string, seed uint64) []fw.Case {
 	n, m := tierNM(tier)
 	perFam, nGen, nPoison := 28, 90, 24
@@ -130,7 +151,7 @@ func (c14) Cases(tier string, seed uint64) []fw.Case {
 		Mangle:      fw.KFOpen(KFMangleCollide),
 		Capture:     fw.KFOpen(KFCapture),
 	}
-	add := func(id string, kind string, b Built, pl Payload) {
+	addWith := func(r *fw.Rng, id string, kind string, b Built, pl Payload) {
 		pl.Fam, pl.Src, pl.Templ, pl.Reps, pl.Procs = b.Fam, b.Src, b.Templ, n, m
 		if r.Chance(1, 3) {
 			pl.Alt = altFor(b.Src, r)
@@ -141,6 +162,7 @@ func (c14) Cases(tier string, seed uint64) []fw.Case {
 		}
 		cases = append(cases, fw.MkCase(id, kind, pl, tags...))
 	}
+	add := func(id string, kind string, b Built, pl Payload) { addWith(r, id, kind, b, pl) }
 	for _, fam := range FamilyNames {
 		for i := 0; i < perFam; i++ {
 			fr := r.Fork()
@@ -154,6 +176,21 @@ func (c14) Cases(tier string, seed uint64) []fw.Case {
 			}
 			b := Families[fam](fr, p)
 			add(fmt.Sprintf("c14-%s-%d", fam, i), "literal", b, Payload{InitOrder: !open.MultiSingl})
+		}
+	}
+	// families added later: their own generator stream (the cases above do not change).
+	// Objects whose non-encodable fields differ in kind are nondeterministic on the unchanged tree
+	// (FINDINGS.md §7): they stay out of the main workload until the finding is recorded as fixed
+	// (a `fixed:` line of C14 whose witness carries the tag), and form a poisoned workload while it
+	// is recorded as open.
+	jsonMixed := kfState(KFJsonKind, TagJsonMixed)
+	for fi, fam := range LateFamilyNames {
+		lr := fw.NewRng(seed ^ 0xC14 ^ uint64(fi+1)<<32)
+		for i := 0; i < perFam; i++ {
+			fr := lr.Fork()
+			p := Poison{JsonMixed: jsonMixed == kfFixed && fr.Chance(1, 3)}
+			b := Families[fam](fr, p)
+			addWith(lr, fmt.Sprintf("c14-%s-%d", fam, i), "literal", b, Payload{})
 		}
 	}
 	// poisoned workloads: one construct at a time, only while its finding is open
@@ -171,6 +208,7 @@ func (c14) Cases(tier string, seed uint64) []fw.Case {
 		{"mangle", open.Mangle, "locals", Poison{Mangle: true}, false},
 		{"capture", open.Capture, "locals", Poison{Capture: true}, false},
 		{"mangle-modules", open.Mangle, "modules", Poison{Mangle: true}, false},
+		{"jsonmixed", jsonMixed == kfOpen, "fielderr", Poison{JsonMixed: true}, false},
 	} {
 		if !ps.on {
 			continue
@@ -512,6 +550,9 @@ func (c14) Run(c fw.Case) fw.Result {
 	}
 	if p.Alt != nil {
 		res.Cover = append(res.Cover, "with-interferer")
+	}
+	if c.HasTag(TagJsonMixed) {
+		res.Cover = append(res.Cover, "construct:"+TagJsonMixed)
 	}
 	for _, k := range cover {
 		res.Cover = append(res.Cover, "gen:"+k)
